@@ -1,6 +1,7 @@
 package vc
 
 import (
+	"go/token"
 	"fmt"
 	"go/types"
 	"strings"
@@ -105,6 +106,29 @@ func (e *Exec) doCallCommon(fr *Frame, ins ssa.Instruction, c *ssa.CallCommon, s
 				}
 				return e.applyContract(fr, ins, ctr, names, all, resT, st, g, isGo)
 			}
+		}
+		// "calls f(args) once": the call of a function value the contract names; its arguments are obligations, its
+		// effect is that of an unknown function of the declared shape (result fresh, nothing of the caller's frame changed)
+		if fr.ctr != nil && fr.ctr.Calls != nil && calleeVarName(c.Value) == fr.ctr.Calls.Fun {
+			cs := fr.ctr.Calls
+			if len(cs.Args) != len(args) {
+				e.unsupported("%s: calls %s with %d arguments, the code passes %d", FuncKey(fr.fn), cs.Fun, len(cs.Args), len(args))
+			}
+			env := e.envForFunc(fr, st, fr.entryState, nil)
+			env.block = ins.Block()
+			for i, a := range cs.Args {
+				want := e.evalSpec(a.E, env)
+				got := args[i]
+				gt := got.T
+				if got.Addr != nil || got.Clo != nil {
+					gt = e.scalar(got)
+				}
+				e.Out.AddObl(&Obligation{Name: fmt.Sprintf("%s/calls:%s/arg%d", FuncKey(fr.fn), cs.Fun, i), Func: FuncKey(fr.fn), Kind: "calls", Label: fmt.Sprintf("arg%d", i), Text: "argument " + fmt.Sprint(i) + " of the call of " + cs.Fun + " is " + a.Text, Src: cs.Src,
+					Formula: Imp(g, Eq(gt, want.T)), Inputs: e.obsInputs(fr)})
+			}
+			cnt := e.get(st, "$calls$"+cs.Fun, SInt)
+			e.set(st, "$calls$"+cs.Fun, SInt, Ite(g, "(+ "+cnt+" 1)", cnt))
+			return e.freshResult(fr, ins, resT, st)
 		}
 		e.unsupported("dynamic call through %s in %s", c.Value.Name(), FuncKey(fr.fn))
 	}
@@ -902,4 +926,19 @@ func mentions(x Expr, name string) bool {
 		return mentions(x.C, name) || mentions(x.A, name) || mentions(x.B, name)
 	}
 	return false
+}
+
+// calleeVarName names the variable a dynamic call goes through: a parameter, a captured variable, or a load of one.
+func calleeVarName(v ssa.Value) string {
+	switch x := v.(type) {
+	case *ssa.Parameter:
+		return x.Name()
+	case *ssa.FreeVar:
+		return x.Name()
+	case *ssa.UnOp:
+		if x.Op == token.MUL {
+			return calleeVarName(x.X)
+		}
+	}
+	return v.Name()
 }
